@@ -31,3 +31,15 @@ LEVELS["C04"] = {"ref": "4.4", "text": "Bounded symbolic verification of appendE
  "note": _STEP_NOTE}
 LEVELS["C02"] = {"ref": "4.2", "text": "Bounded symbolic verification of the follower's FSM feed in appendEntries: committed Command entries in index order, once, identical to the agreed entries, bounded by min(leaderCommit,lastIndex).",
  "note": _STEP_NOTE + "NI (no stale entries below the leader's commit index beyond the batch) is assumed; it is the catch-up session's invariant."}
+LEVELS["C08"] = {"ref": "4.8", "text": "Bounded symbolic verification of the leader-side Apply path (dispatchLogs, the applyCh and commit cases of leaderLoop executed for one iteration under a run-until-blocked scheduler, runFSM response pairing) from arbitrary leader states.", "note": _STEP_NOTE + "Outside: real-time ordering between client goroutines."}
+LEVELS["C09"] = {"ref": "4.9", "text": "Bounded symbolic verification of verifyLeader/notifyAll/vote plus the verify case of leaderLoop for every acknowledgement pattern over N<=3(4) servers of symbolic suffrage, and of the acknowledgement side (appendEntries never acknowledges a superseded term).", "note": _STEP_NOTE + "Heartbeat-freshness interleavings (D10) are not decided."}
+LEVELS["C11"] = {"ref": "4.11", "text": "Bounded symbolic verification of the compaction arithmetic over full 64-bit arguments, removeOldLogs, and the ordering/atomicity clauses of installSnapshot under injected faults.", "note": _STEP_NOTE + "takeSnapshot session and snapshot bytes are outside."}
+LEVELS["C12"] = {"ref": "4.12", "text": "Bounded symbolic verification of the catch-up step: replicateTo's request construction, back-track and advance rules for arbitrary follower responses, bounded back-off, and the follower state after installSnapshot. The election-liveness clause is not decided.", "note": _STEP_NOTE}
+LEVELS["C13"] = {"ref": "4.13", "text": "Bounded symbolic verification of checkLeaderLease with a symbolic clock: step-down iff no voter quorum contacted within the lease, non-voters irrelevant, maxDiff/interval bounds, and the inductive next-check bound.", "note": _STEP_NOTE + "Timer latency is a symbolic slack, not measured."}
+LEVELS["C18"] = {"ref": "4.18", "text": "Bounded symbolic verification of the leader-hint clauses in requestVote, appendEntries, installSnapshot, checkLeaderLease and runCandidate from arbitrary states, plus overrideNotifyBool and the NotifyCh pairing of runLeader.", "note": _STEP_NOTE + "Alternation across activations follows from run() dispatching on the state (written argument)."}
+LEVELS["C20"] = {"ref": "4.20", "text": "Bounded symbolic verification of restoreUserSnapshot (and the refusing loop case) from arbitrary leader states with in-flight futures, arbitrary snapshot meta and injected snapshot-store/copy faults on both store flavours.", "note": _STEP_NOTE + "Follower catch-up after a restore is not run as a session."}
+LEVELS["C17"] = {"ref": "4.17", "text": "Bounded symbolic exploration deciding the ownership core of C17: every public call after shutdown returns from Error() on every select outcome (deadlock = violation), and every future owned by a leader is answered on step-down, failure, restore or refusal. The solver's role is feasibility of symbolic flags; exhaustiveness comes from forking every select.", "note": _STEP_NOTE + "The real-time bound while running is not decided."}
+NA["C15"] = "crash atomicity of FileSnapshotStore depends on os/bufio/json/crc64 and real file-system semantics; the file-system model (DESIGN 4.15 layer two, ~25 stubs) was not built, and the ordering logic alone (layer one) does not decide the property"
+NA["C10_unused"] = "NewRaft start-up harness not finished in this session (DESIGN 4.10); the defect D5 found by the scratch probe is recorded in DESIGN.md but no check is registered"
+
+LEVELS["C10"] = {"ref": "4.10", "text": "Bounded symbolic verification of the real NewRaft (skipStartup) on arbitrary durable images: stable term, a log window with an optional configuration entry, 0-2 snapshots each of which may be unusable, plain or commit-tracking store with RestoreCommittedLogs; asserts that it returns, restores term/last log/newest usable snapshot/latest configuration and replays exactly the committed entries once.", "note": _STEP_NOTE + "Crash-closedness of the durable invariant (which images a crash can leave) is not decided; the image invariant is assumed. Real disk stores are outside."}
